@@ -364,4 +364,166 @@ theorem constraint_comm {c1 c2 : Constraint α V} {S1 S2 : α → Prop}
 
 end Constraints
 
+/-! ## sorting by a total order `le` (the sort of `match_constraints`) -/
+
+section SortLe
+variable {α : Type} (le : α → α → Bool)
+
+theorem insertByLe_perm (x : α) (l : List α) : (insertByLe le x l).Perm (x :: l) := by
+  induction l with
+  | nil => simp [insertByLe]
+  | cons y ys ih =>
+    simp only [insertByLe]
+    split
+    · exact List.Perm.refl _
+    · exact ((List.perm_cons y).mpr ih).trans (List.Perm.swap x y ys)
+
+theorem sortByLe_cons (x : α) (xs : List α) : sortByLe le (x :: xs) = insertByLe le x (sortByLe le xs) := rfl
+
+theorem sortByLe_perm (l : List α) : (sortByLe le l).Perm l := by
+  induction l with
+  | nil => exact List.Perm.refl _
+  | cons x xs ih =>
+    rw [sortByLe_cons]
+    exact (insertByLe_perm le x _).trans ((List.perm_cons x).mpr ih)
+
+variable {le}
+
+theorem insertByLe_sorted (htotal : ∀ a b, le a b = true ∨ le b a = true)
+    (htrans : ∀ a b c, le a b = true → le b c = true → le a c = true)
+    (x : α) (l : List α) (hs : l.Pairwise (fun a b => le a b = true)) :
+    (insertByLe le x l).Pairwise (fun a b => le a b = true) := by
+  induction l with
+  | nil => simp [insertByLe]
+  | cons y ys ih =>
+    simp only [insertByLe]
+    obtain ⟨hy, hys⟩ := List.pairwise_cons.mp hs
+    split
+    · next hle =>
+      refine List.pairwise_cons.mpr ⟨?_, hs⟩
+      intro z hz
+      rcases List.mem_cons.mp hz with rfl | hz
+      · exact hle
+      · exact htrans _ _ _ hle (hy z hz)
+    · next hnle =>
+      have hyx : le y x = true := by
+        rcases htotal x y with h | h
+        · exact absurd h hnle
+        · exact h
+      refine List.pairwise_cons.mpr ⟨?_, ih hys⟩
+      intro z hz
+      rcases List.mem_cons.mp (((insertByLe_perm le x ys).mem_iff).mp hz) with rfl | hz
+      · exact hyx
+      · exact hy z hz
+
+theorem sortByLe_sorted (htotal : ∀ a b, le a b = true ∨ le b a = true)
+    (htrans : ∀ a b c, le a b = true → le b c = true → le a c = true) (l : List α) :
+    (sortByLe le l).Pairwise (fun a b => le a b = true) := by
+  induction l with
+  | nil => simp [sortByLe]
+  | cons x xs ih => rw [sortByLe_cons]; exact insertByLe_sorted htotal htrans x _ ih
+
+/-- two lists sorted by an antisymmetric order with the same elements are equal -/
+theorem sortedLe_perm_eq (hanti : ∀ a b, le a b = true → le b a = true → a = b) :
+    ∀ (l1 l2 : List α), l1.Perm l2 → l1.Pairwise (fun a b => le a b = true) →
+      l2.Pairwise (fun a b => le a b = true) → l1 = l2 := by
+  intro l1
+  induction l1 with
+  | nil => intro l2 hp _ _; exact (List.Perm.nil_eq hp)
+  | cons a l1 ih =>
+    intro l2 hp h1 h2
+    cases l2 with
+    | nil => exact absurd hp.length_eq (by simp)
+    | cons b l2 =>
+      obtain ⟨ha, h1'⟩ := List.pairwise_cons.mp h1
+      obtain ⟨hb, h2'⟩ := List.pairwise_cons.mp h2
+      have hab : a = b := by
+        have ha2 : a ∈ b :: l2 := (hp.mem_iff).mp (by simp)
+        have hb1 : b ∈ a :: l1 := (hp.mem_iff).mpr (by simp)
+        rcases List.mem_cons.mp ha2 with h | h
+        · exact h
+        · rcases List.mem_cons.mp hb1 with h' | h'
+          · exact h'.symm
+          · exact hanti _ _ (ha b h') (hb a h)
+      subst hab
+      rw [ih l2 hp.cons_inv h1' h2']
+
+/-- **Sorting by a total order is canonical**: the result depends only on the multiset of inputs. -/
+theorem sortByLe_canonical (htotal : ∀ a b, le a b = true ∨ le b a = true)
+    (htrans : ∀ a b c, le a b = true → le b c = true → le a c = true)
+    (hanti : ∀ a b, le a b = true → le b a = true → a = b)
+    {l1 l2 : List α} (hp : l1.Perm l2) : sortByLe le l1 = sortByLe le l2 :=
+  sortedLe_perm_eq hanti _ _ (((sortByLe_perm le l1).trans hp).trans (sortByLe_perm le l2).symm)
+    (sortByLe_sorted htotal htrans l1) (sortByLe_sorted htotal htrans l2)
+
+end SortLe
+
+/-! ## `nameLe` is a total order -/
+
+theorem nameLe_total : ∀ a b, nameLe a b = true ∨ nameLe b a = true := by
+  intro a
+  induction a with
+  | nil => intro b; simp [nameLe]
+  | cons x a ih =>
+    intro b
+    cases b with
+    | nil => simp [nameLe]
+    | cons y b =>
+      simp only [nameLe]
+      by_cases h1 : x.toNat < y.toNat
+      · simp [h1]
+      · by_cases h2 : y.toNat < x.toNat
+        · simp [h1, h2]
+        · have h2' : ¬ x.toNat > y.toNat := h2
+          simp only [h1, h2, h2', if_false, gt_iff_lt]
+          exact ih b
+
+theorem nameLe_trans : ∀ a b c, nameLe a b = true → nameLe b c = true → nameLe a c = true := by
+  intro a
+  induction a with
+  | nil => intro b c _ _; simp [nameLe]
+  | cons x a ih =>
+    intro b c h1 h2
+    cases b with
+    | nil => simp [nameLe] at h1
+    | cons y b =>
+      cases c with
+      | nil => simp [nameLe] at h2
+      | cons z c =>
+        simp only [nameLe, gt_iff_lt] at h1 h2 ⊢
+        split at h1
+        · split at h2
+          · rw [if_pos (by omega)]
+          · split at h2
+            · simp at h2
+            · rw [if_pos (by omega)]
+        · split at h1
+          · simp at h1
+          · split at h2
+            · rw [if_pos (by omega)]
+            · split at h2
+              · simp at h2
+              · rw [if_neg (by omega), if_neg (by omega)]
+                exact ih b c h1 h2
+
+theorem nameLe_antisymm : ∀ a b, nameLe a b = true → nameLe b a = true → a = b := by
+  intro a
+  induction a with
+  | nil => intro b _ h2; cases b with
+    | nil => rfl
+    | cons y b => simp [nameLe] at h2
+  | cons x a ih =>
+    intro b h1 h2
+    cases b with
+    | nil => simp [nameLe] at h1
+    | cons y b =>
+      simp only [nameLe, gt_iff_lt] at h1 h2
+      split at h1
+      · rw [if_neg (by omega), if_pos (by omega)] at h2; simp at h2
+      · split at h1
+        · simp at h1
+        · rw [if_neg (by omega), if_neg (by omega)] at h2
+          have hxy : x = y := Char.toNat_inj.mp (by omega)
+          rw [hxy, ih b h1 h2]
+
 end AGV.Topo
